@@ -56,7 +56,7 @@ def _event(tok):
 
 def _goal(case, out):
     f = case.split(" ")
-    if len(f) < 9 or f[3].startswith("-"):
+    if len(f) < 9 or f[3].startswith("-") or f[2][0] not in "gtr" or any(x.startswith("pt=") for x in f):
         return None
     n, k, mode, root, c0, nodes, d0, trace = f[0], f[1], f[2], f[3], f[4], f[5], f[6], f[7]
     m, _, bits = mode.partition("/")
@@ -82,6 +82,8 @@ def _goal(case, out):
         kv = dict(x.split("=", 1) for x in out.split(" ")[1:])
         ret = {"1": "Some true", "0": "Some false", "-": "None"}[kv["ret"]]
         tag = "None" if kv["tag"] == "-" else "Some %s" % kv["tag"]
+        if kv["ret"] == "1" and kv["cr"] == "-":
+            return None  # copy_result not compared (graph not mt_consistent for this destination)
         exp = "Some (%s, %s, %s, %s)" % (ret, tag, _nats(kv["dst"]), _nats(kv["cr"]) if kv["ret"] == "1" else "[]")
     else:
         return None
